@@ -4,6 +4,7 @@ import (
 	"context"
 	"fmt"
 	"sync"
+	"verif/shim/core"
 
 	"github.com/ipfs/go-cid"
 	"github.com/ipfs/go-graphsync"
@@ -141,6 +142,7 @@ func (g *FakeGS) Request(ctx context.Context, p peer.ID, root ipld.Link, selecto
 	g.rec(GSCall{Op: "request", Req: num, Peer: p, Exts: extensions})
 	go func() {
 		defer close(r.HookDone)
+		defer core.RecoverGoroutine("graphsync outgoing-request hook goroutine")
 		if hook != nil {
 			acts := &outReqActions{r: r}
 			hook(p, &FakeRequestData{Num: num, RootCid: root.(cidlink.Link).Cid, Sel: selector, Exts: extMap(extensions)}, acts)
